@@ -1986,7 +1986,9 @@ class CxxParser:
                 method.return_type = return_type
             elif tok_value == "throw":
                 tok = self._next_token_must_be("(")
-                method.throw = self._create_value(self._consume_balanced_tokens(tok))
+                method.throw = self._create_value(
+                    self._consume_balanced_tokens(tok)[1:-1]
+                )
             elif tok_value == "noexcept":
                 toks = []
                 otok = self.lex.token_if("(")
